@@ -17,10 +17,13 @@ Record cmdset := {
   cs_names : list (list N);                                     (* names scanned by the derived Autocomplete, visible groups in order *)
   cs_list_help : list hop;                                      (* what Help::list_commands writes *)
   cs_cmd_help : list N -> list (list N) -> option (list hop);   (* Help::command_help, None = UnknownCommand *)
-  cs_parse : list N -> list (list N) -> option perr             (* FromRaw::parse, Some e = ParseError *)
+  cs_parse : list N -> list (list N) -> option perr;            (* FromRaw::parse, Some e = ParseError *)
+  cs_fail : nat -> list N -> list (list N) -> option perr       (* CommandProcessor::process returning Err(ParseError) AFTER the handler
+                                                                   closure ran (n-th invocation): a hand-written processor may write and then
+                                                                   reject the command; the processors the macros generate never do (None) *)
 }.
 Definition raw_cmdset : cmdset :=
-  {| cs_names := []; cs_list_help := []; cs_cmd_help := fun _ _ => None; cs_parse := fun _ _ => None |}.
+  {| cs_names := []; cs_list_help := []; cs_cmd_help := fun _ _ => None; cs_parse := fun _ _ => None; cs_fail := fun _ _ _ => None |}.
 
 Record cli := {
   ed : editor; hist : history; ig : igen; prompt : list N;
@@ -122,7 +125,9 @@ Section CliModel.
       (match newp s1 with Some p => modify (set_prompt_f p) | None => ret tt end) ;;
       (if is_dirty (wst s1) then wr CRLF else ret tt) ;;
       fl ;;
-      reraise r
+      reraise r ;;
+      (* res was Err(ProcessError::ParseError(e)): the error line follows the (closed) output *)
+      match cs_fail cs (length (hcalls s)) name args with Some e => process_error e | None => ret tt end
     end.
 
   Definition process_help (req : helpreq) : M cli unit :=
